@@ -131,6 +131,33 @@ def run(ctx: Ctx) -> None:
                 for cs in cutsets:
                     g.parse(cs, meter)
                 acc.add(g)
+        # folded response headers: the sum of the raw continuation lines counts against max_field_size
+        for lim in lims:
+            if lim.limit <= 16:
+                continue
+            for label, s, cutsets, mode in G.fold_sum_family(lim.max_field):
+                g = H.Group(mode, s, lim, src="fold-sum", label=f"{label} limits={lim.key()}")
+                g.parse([], meter)
+                for cs in cutsets:
+                    g.parse(cs, meter)
+                if len(s) <= 2000:
+                    g.parse(G.byte_at_a_time(len(s)), meter)
+                    g.client([])
+                acc.add(g)
+        # a pooled client connection reused with per-request limits: every response is judged against the limits
+        # of ITS request (first exchange: a small response; second exchange: limit-sized responses for the new limits)
+        per_req = [H.Limits(300, 200, 20), H.Limits(80, 80, 8), H.Limits(), H.Limits(40, 60, 8)]
+        small = b"HTTP/1.1 200 OK\r\nContent-Length: 2\r\n\r\nok"
+        for la in per_req:
+            for lb in per_req:
+                if la == lb:
+                    continue
+                fam = [x for pos in ("status-line", "field", "header-count", "fold")
+                       for x in G.limit_family(pos, lb.max_line, lb.max_field, lb.max_headers) if x[3] == "response"]
+                fam += [x for x in G.fold_sum_family(lb.max_field) if len(x[1]) < 30000]
+                for label, s, _cs, _mode in fam:
+                    for g in H.client_exchanges([(small, la, []), (s, lb, [])], "client-reuse", f"{label} after limits={la.key()}"):
+                        acc.add(g)
         # numbers with very many digits
         for label, s, mode in G.long_number_family():
             g = H.Group(mode, s, H.DEFAULT_LIMITS, src="long-number", label=label)
